@@ -514,6 +514,10 @@ def generate(rng, tier, boost):
     # transaction size boundary (CheckTransaction on a 1,000,000 / 1,000,001-byte transaction)
     for size in (1000000, 1000001):
         add(cases, 1601, [rng.randrange(4), big_tx(size)], 'tx-size-%d' % size)
+    # the size rule is about the STRIPPED size: small body, more than 1 MB of witness data; and the
+    # converse, a stripped size one byte over the limit with no witness
+    t = [2, [[b'\x22' * 32, 1, b'', 0xffffffff]], [[5000, b'\x51']], [[b'\x07' * 400000, b'\x08' * 400000, b'\x09' * 300000]], 0]
+    add(cases, 1601, [rng.randrange(4), t], 'tx-witness-over-1MB')
     shapes = [(1, False), (2, False), (2, True), (3, True), (3, False), (5, True), (4, False)] + ([(9, True)] if big else [])
     rounds = 10 if big else 1
     for r in range(rounds):
